@@ -149,17 +149,33 @@ func genHdrs(r *rand.Rand) []protocol.Header {
 	n := 1 + r.Intn(3)
 	hs := make([]protocol.Header, n)
 	for i := range hs {
-		hs[i].Key = string(gen.Bytes(r, r.Intn(6)))
+		// lengths around the points where the (zig-zag) varint of a length grows by one byte — where a sizing function
+		// and a writing function that disagree about the varint flavour part ways (seeded C05-m7)
+		hs[i].Key = string(gen.Bytes(r, varintEdge(r, 6)))
 		switch r.Intn(4) {
 		case 0:
 			hs[i].Value = nil
 		case 1:
 			hs[i].Value = []byte{}
 		default:
-			hs[i].Value = gen.Bytes(r, 1+r.Intn(20))
+			hs[i].Value = gen.Bytes(r, 1+varintEdge(r, 20))
 		}
 	}
 	return hs
+}
+
+// varintEdge: mostly a length below `small`, otherwise one at a boundary of the varint encodings of lengths:
+// zig-zag grows at 64 and 8192, the unsigned varint at 128 and 16384
+func varintEdge(r *rand.Rand, small int) int {
+	switch r.Intn(5) {
+	case 0:
+		return []int{62, 63, 64, 65, 100, 126, 127, 128, 129}[r.Intn(9)]
+	case 1:
+		if r.Intn(4) == 0 {
+			return []int{8191, 8192, 8193, 16383, 16384}[r.Intn(5)]
+		}
+	}
+	return r.Intn(small)
 }
 
 // genRecs: n records; class 0 small, 1 medium, 2 with large (several 64 KiB pages) values
@@ -1374,6 +1390,14 @@ func produceCase(r *rand.Rand, path string, version int, codec int, rs []rec, to
 		offs = func(int) int64 { return 0 } // Message.Offset is written as is; brokers assign offsets
 	}
 	want := givenCanon(rs, offs, version == 2 || v1WithHeaders)
+	if v1WithHeaders {
+		// message format 1 cannot carry headers: the only correct outcome is a refusal (C05-D32)
+		if err != nil {
+			emit("v1hdr "+path, "refused")
+			return
+		}
+		emit("v1hdr "+path, "accepted")
+	}
 	if err != nil {
 		emit(fmt.Sprintf("wire %s -", tag), "error:"+errClass(err)+" wanted "+want)
 		return
